@@ -119,6 +119,14 @@ CLAIMS = {
         'note': _NOTE + '; code that inspects __mro__ of the symbolic classes is only judged by '
                         'the real-class replay (non-reproducing counterexamples = inconclusive)',
     },
+    'C15': {
+        'text': 'Sequences of runs (success, root raising, root returning a symbolic value, '
+                'nested run, quiescence with eternal waiters) with symbolic starts/dates; and two '
+                'real threads whose hand-over at every activation boundary is a solver-split '
+                'choice, so all interleavings at activation granularity are paths; each thread '
+                'must observe exactly its solo behaviour.',
+        'note': _NOTE + '; thread pre-emption inside an activation is outside the claim',
+    },
 }
 
 NOT_APPLICABLE = {}
